@@ -1,7 +1,7 @@
 (* C13 — property theorems only.  Each is closed by `exact <lemma>` and followed by
    Print Assumptions; the check re-compiles this file on every run. *)
 From Coq Require Import List NArith ZArith Bool.
-From MW Require Import Common.Str C13.Val C13.Gen_classes C13.Model C13.Wf C13.Proofs C13.ProofsRT C13.ProofsId.
+From MW Require Import Common.Str C13.Val C13.Gen_classes C13.Model C13.Wf C13.Proofs C13.ProofsRT C13.ProofsId C13.ProofsCanon.
 Import ListNotations.
 
 (* Values: VObj c f = instance of metabook class c with attribute map f (the `type` entry is c itself);
@@ -28,7 +28,7 @@ Print Assumptions C13_loads_succeeds.
 
 (* the JSON value determines the metabook, and conversely depends on nothing but its normal form *)
 Theorem C13_to_json_faithful : forall m1 m2, wf m1 -> wf m2 -> (to_json m1 = to_json m2 <-> nf m1 = nf m2).
-Proof. intros m1 m2 W1 W2. split; [exact (to_json_inj m1 m2 W1 W2)|exact (nf_to_json m1 m2)]. Qed.
+Proof. exact to_json_faithful. Qed.
 Print Assumptions C13_to_json_faithful.
 
 (* Collection id.  id_preimage is the string make_collection_id feeds to sha256, as a function of the
@@ -45,11 +45,7 @@ Theorem C13_id_invariant : forall dumps hexH repr version b e l m,
     = id_preimage dumps hexH repr version b e l (Some (to_json m)) /\
   (forall m', wf m' -> nf m = nf m' ->
      id_preimage dumps hexH repr version b e l (Some (to_json m')) = id_preimage dumps hexH repr version b e l (Some (to_json m))).
-Proof.
-  intros dumps hexH repr version b e l m W. split; [exact (pre_dumped dumps hexH repr version b e l m W)|].
-  split; [exact (pre_invariant dumps hexH repr version b e l m W)|].
-  intros m' W' E. symmetry. exact (pre_same_metabook dumps hexH repr version b e l m m' W W' E).
-Qed.
+Proof. exact id_invariant_full. Qed.
 Print Assumptions C13_id_invariant.
 
 (* Separation: if two requests have the same pre-image then, unless sha256 collides on the two dumps or
@@ -83,6 +79,26 @@ Theorem C13_id_separates_params : forall dumps hexH repr version,
 Proof. intros dumps hexH repr version Hr. exact (pre_separates_params dumps hexH repr version Hr). Qed.
 Print Assumptions C13_id_separates_params.
 
+(* to_json of a metabook whose maps are key-sorted (all the model's constructors build such, and the
+   harness measures it on every sampled state) is a canonical JSON value: no objects left, every map strictly
+   key-sorted.  Hence the printer premise of C13_id_separates follows from injectivity of
+   json.dumps(sort_keys=True) on canonical values: *)
+Theorem C13_to_json_canonical : forall m, msorted m = true -> jcanon (to_json m) = true.
+Proof. exact to_json_canon. Qed.
+Print Assumptions C13_to_json_canonical.
+
+Theorem C13_id_separates_canon : forall dumps hexH repr version,
+  (forall a b x y, repr a ++ x = repr b ++ y -> a = b) ->
+  (forall j1 j2, jcanon j1 = true -> jcanon j2 = true -> dumps j1 = dumps j2 -> j1 = j2) ->
+  forall b1 e1 l1 m1 b2 e2 l2 m2,
+  wf m1 -> wf m2 -> msorted m1 = true -> msorted m2 = true ->
+  id_preimage dumps hexH repr version b1 e1 l1 (Some (to_json m1))
+    = id_preimage dumps hexH repr version b2 e2 l2 (Some (to_json m2)) ->
+  (hexH (dumps (to_json m1)) = hexH (dumps (to_json m2)) -> dumps (to_json m1) = dumps (to_json m2)) ->
+  b1 = b2 /\ e1 = e2 /\ l1 = l2 /\ nf m1 = nf m2.
+Proof. intros dumps hexH repr version Hr Hd. exact (pre_separates_canon dumps hexH repr version Hr Hd). Qed.
+Print Assumptions C13_id_separates_canon.
+
 (* the executable check the harness runs on every sampled state implies wf *)
 Theorem C13_wfb_sound : forall v, wfb v = true -> wf v.
 Proof. exact wfb_spec. Qed.
@@ -102,7 +118,7 @@ Example C13_example_built :
   let ar := append_article [65]%N None rev in
   let ch t := append_item (new_obj (lower k_Chapter) [(k_title, VStr t)]) in
   let m1 := a' (a (ch [67]%N coll)) in
-  wfb m1 = true /\ wfb (a (a' (ch [67]%N coll))) = true /\ wfb (ar coll) = true /\
+  wfb m1 = true /\ msorted m1 = true /\ wfb (a (a' (ch [67]%N coll))) = true /\ wfb (ar coll) = true /\
   nf (a coll) <> nf (a' coll) /\ nf (a coll) <> nf (ar coll) /\
   nf m1 <> nf (a (a' (ch [67]%N coll))) /\ nf m1 <> nf (a' (a (ch [68]%N coll))) /\
   get_items (new_obj (lower k_Collection) []) = Some [] /\
